@@ -66,6 +66,8 @@ def patch(
     std_targets = ["snowflake.connector.connect", "snowflake.connector.pandas_tools.write_pandas"]
 
     stack = contextlib.ExitStack()
+    # original function by id of the mock that replaces it
+    originals = {}
 
     try:
         for im in std_targets + list([extra_targets] if isinstance(extra_targets, str) else extra_targets):
@@ -79,13 +81,16 @@ def patch(
             # if we imported the module above, it'll already be mocked because
             # it'll reference the standard targets which are mocked first
             if isinstance(fn, mock.MagicMock):
+                # the module will keep referring to the mock after it has been stopped, so put back the original
+                if original := originals.get(id(fn)):
+                    stack.callback(setattr, module, fn_name, original)
                 continue
 
             fake = fake_fns.get(fn)
             assert fake, f"Module var {im} is {fn} and not one of {fake_fns.keys()}"
 
             p = mock.patch(im, side_effect=fake)
-            stack.enter_context(p)
+            originals[id(stack.enter_context(p))] = fn
 
         yield None
     finally:
